@@ -76,16 +76,36 @@ theorem initState_inv (hρ : LawfulEnv ρ) (S : Array Node) (har : arityB S = tr
 theorem factorize_ok (S : Graph) (rank : Nat) (res : FResult) (h : factorize S rank = .ok res) :
     ∃ st, runNodes (fun si => (argIndices S.nodes).idxOf si) (initState S.nodes) 0 S.nodes.toList = .ok st ∧
       res.F = st.F ∧ res.nodeFacs = st.facs ∧ res.argIndices = argIndices S.nodes ∧
-      res.targetDicts = S.targets.map fun (t, comps) =>
-        (t, comps, targetDict (fun si => (argIndices S.nodes).idxOf si) rank st t) := by
+      res.targetDicts = S.targets.map (fun (t, comps) =>
+        (t, comps, targetDict (fun si => (argIndices S.nodes).idxOf si) rank st t)) ∧
+      (∀ t ∈ S.targets, t.1 < S.nodes.size) ∧
+      (∀ t ∈ S.targets, targetRejected rank st S.nodes t.1 = false) := by
   unfold factorize at h
   simp only at h
   split at h
   · cases h
   rename_i st hrun
+  split at h
+  · cases h
+  rename_i hrange
+  split at h
+  · cases h
+  rename_i hrej
   simp only [Except.ok.injEq] at h
   subst h
-  exact ⟨st, hrun, rfl, rfl, rfl, rfl⟩
+  refine ⟨st, hrun, rfl, rfl, rfl, rfl, ?_, ?_⟩
+  · intro t ht
+    apply Decidable.byContradiction
+    intro hlt
+    apply hrange
+    rw [List.any_eq_true]
+    exact ⟨t, ht, by simp; omega⟩
+  · intro t ht
+    apply Bool.eq_false_iff.mpr
+    intro hr
+    apply hrej
+    rw [List.any_eq_true]
+    exact ⟨t, ht, hr⟩
 
 theorem wfCheck_spec (S : Graph) (rank : Nat) (res : FResult) (h : wfCheck S rank res = true) :
     (res.argIndices.map fun si => argPos (kindAt S.nodes si)) = List.range res.argIndices.length ∧
@@ -169,7 +189,7 @@ theorem factorize_nodes_sound (hρ : LawfulEnv ρ) (hreal : RealArgs ρ) (S : Gr
     (res : FResult) (h : factorize S rank = .ok res) (hwf : wfCheck S rank res = true)
     (j : Nat) (hj : j < S.nodes.size) (hne : res.nodeFacs[j]?.getD [] ≠ []) :
     val ρ S.nodes j = factSum ρ res.F (val ρ S.nodes) (res.nodeFacs[j]?.getD []) := by
-  obtain ⟨st, hrun, hF, hfacs, _, _⟩ := factorize_ok S rank res h
+  obtain ⟨st, hrun, hF, hfacs, _, _, _, _⟩ := factorize_ok S rank res h
   obtain ⟨hinv, _⟩ := factorize_inv ρ hρ hreal S rank res st hrun hF hfacs hwf
   have := (hinv.node j hj).dep
   unfold facAt at this
